@@ -3,7 +3,7 @@
 (* Which logged events are steps of the specification, per property.        *)
 (* e is one JSON event of the harness; P the property id.                   *)
 (***************************************************************************)
-EXTENDS Sem, SemConv, SemText, SemMath, SemBits, EuclidAlg, FmtAlg
+EXTENDS Sem, SemConv, SemText, SemMath, SemBits, EuclidAlg, FmtAlg, MathAlg
 
 ArithExact(e) ==
   LET f == LF(e.L) IN
@@ -109,6 +109,23 @@ AcceptPred(e) ==
   /\ ValIs(e.o[3], MinV(e.L)) /\ ValIs(e.o[4], MaxV(e.L)) /\ ValIs(e.o[5], Z0)
   /\ \A i \in 6..9 : ValIs(e.o[i], a)               \* from_bits(to_bits), from_xx_bytes(to_xx_bytes)
 
+\* Fidelity of the layer-A transcription tla/alg/MathAlg.tla ("property" AF; never a verdict on the code): a recorded call
+\* with S = D is reproduced by the transcribed algorithm bit for bit and tick for tick, unless the transcription says
+\* "undef" (a plain operator of the code overflowed).
+MathAlgOf(e) ==
+  CASE e.fn = "sqrt" -> Sqrt(ZJ(e.x), e.D)
+    [] e.fn = "log2" -> Log2(ZJ(e.x), e.D)
+    [] e.fn = "ln"   -> Ln(ZJ(e.x), e.D)
+    [] e.fn = "exp"  -> Exp(ZJ(e.x), e.D)
+    [] e.fn = "powi" -> Powi(ZJ(e.x), e.n, e.D)
+AcceptFidelity(e) ==
+  \/ e.k # "math" \/ e.S # e.D \/ e.fn \notin {"sqrt", "log2", "ln", "exp", "powi"}
+  \/ (e.fn = "powi" /\ (e.n > 300 \/ e.n < -300))
+  \/ LET a == MathAlgOf(e) IN
+     \/ a.k = "undef"
+     \/ a.k = "ok" /\ e.r[1] = 0 /\ ZEq(ZJ(e.r[2]), a.v) /\ e.it = a.it
+     \/ a.k = "err" /\ e.r[1] = 1 /\ e.it = a.it
+
 (* ------------------------------ C05 ------------------------------------ *)
 AcceptF2X(e) ==
   LET fl == FDec(ZJ(e.fb), e.ft)  L == e.B
@@ -209,7 +226,7 @@ AcceptPair(e) ==
 Accept(e, P) ==
   CASE e.k \in {"bin", "bini", "un"} -> AcceptArith(e, P)
     [] e.k = "pair"  -> AcceptPair(e)
-    [] e.k = "math"  -> AcceptMath(e, P)
+    [] e.k = "math"  -> IF P = "AF" THEN AcceptFidelity(e) ELSE AcceptMath(e, P)
     [] e.k = "bits"  -> AcceptBits(e)                       \* growth (G01)
     [] e.k = "const" -> AcceptConst(e)                      \* growth (G02)
     [] e.k = "parse" -> AcceptParse(e, P)
